@@ -88,7 +88,7 @@ class LengthKeyParameter(ParameterWithDOP):
                 odxraise(f"Got conflicting values for length key {self.short_name}: "
                          f"{lkv} and {physical_value!r}")
 
-            if not isinstance(physical_value, int):
+            if not isinstance(physical_value, int) or isinstance(physical_value, bool):
                 odxraise(
                     f"Value of length key {self.short_name} is of type {type(physical_value).__name__} "
                     f"instead of int")
